@@ -167,10 +167,21 @@ func check(c mcase, fail func(key, msg string)) {
 		seed := <-ch
 		compare("Value.Pull seed", seed.Value)
 		unchanged("Value.Pull seed")
+		// a second subscriber without a mask, registered later: what the first one is shown is its own business
+		chAll := v.Pull(ctx, resource.WithBackpressure(true))
+		if seedAll := <-chAll; !same(seedAll.Value, orig) {
+			report("projection", fmt.Sprintf("an unmasked Value.Pull next to a masked one is seeded with %v, stored is %v", seedAll.Value, orig))
+		}
 		go v.Set(proto.Clone(next))
 		ev := <-ch
 		if !same(ev.Value, wantNext) {
 			report("projection", fmt.Sprintf("Value.Pull event carries %v, the projection is %v", ev.Value, wantNext))
+		}
+		if evAll := <-chAll; !same(evAll.Value, next) {
+			report("projection", fmt.Sprintf("an unmasked Value.Pull next to a masked one receives %v, written was %v", evAll.Value, next))
+		}
+		if !same(ev.Value, wantNext) {
+			report("projection", fmt.Sprintf("after the other subscriber received the event too, the masked Value.Pull event reads %v, the projection is %v", ev.Value, wantNext))
 		}
 		cancel()
 		ctx2, cancel2 := context.WithCancel(context.Background())
@@ -179,8 +190,13 @@ func check(c mcase, fail func(key, msg string)) {
 		cch := col.Pull(ctx2, resource.WithReadMask(mask), resource.WithBackpressure(true))
 		cs := <-cch
 		compare("Collection.Pull seed", cs.NewValue)
+		cchAll := col.Pull(ctx2, resource.WithBackpressure(true))
+		<-cchAll
 		go col.Update("a", proto.Clone(next))
 		ce := <-cch
+		if ceAll := <-cchAll; !same(ceAll.NewValue, next) || !same(ceAll.OldValue, orig) {
+			report("projection", fmt.Sprintf("an unmasked Collection.Pull next to a masked one receives %v -> %v, written was %v -> %v", ceAll.OldValue, ceAll.NewValue, orig, next))
+		}
 		if !same(ce.NewValue, wantNext) {
 			report("projection", fmt.Sprintf("Collection.Pull event new value %v, the projection is %v", ce.NewValue, wantNext))
 		}
